@@ -181,8 +181,13 @@ class Gen:
                 prog["flagfree"] = False
             if rng.random() < 0.1:
                 st["tag"] = "t%d" % site[0]
-            if sp["unpack_to"]:
-                ts = [newvar() for _ in range(sp["unpack_to"])]
+            call_unpack = None
+            if (not sp["unpack_to"] and not will_flag and sp["shape"] and sp["shape"][0] in ("tuple", "list")
+                    and rng.random() < f.get("call_unpack", 0.3)):
+                call_unpack = sp["shape"][1]  # twz_unpack_to given at the call site
+                st["call_unpack"] = call_unpack
+            if sp["unpack_to"] or call_unpack:
+                ts = [newvar() for _ in range(sp["unpack_to"] or call_unpack)]
                 st["t"] = ts
                 for t in ts:
                     vars_[t] = dict(shape=None, maybe_none=will_flag, plain=not will_flag, elem=True)
@@ -252,7 +257,9 @@ def render(prog, strip_flags=False, indent=""):
                 parts.append("twz_active=%s" % st["active"])
             if st["tag"] is not None:
                 parts.append("twz_tag=%r" % st["tag"])
-            lhs = ", ".join(st["t"]) + ("," if len(st["t"]) == 1 and prog["fns"][st["fn"]]["unpack_to"] else "")
+            if st.get("call_unpack"):
+                parts.append("twz_unpack_to=%d" % st["call_unpack"])
+            lhs = ", ".join(st["t"]) + ("," if len(st["t"]) == 1 and (prog["fns"][st["fn"]]["unpack_to"] or st.get("call_unpack")) else "")
             L.append("    %s = %s_s%d(%s)" % (lhs, prog["name"], st["site"], ", ".join(parts)))
     kind, items = prog["ret"]
     if kind == "none":
